@@ -168,6 +168,15 @@ type expr struct {
 	val   *big.Int
 	fits  bool // every intermediate value fits the base type and shift counts are in [0,width)
 	depth int
+	op    string // top-level operator, "" for a leaf
+	min   string // the same tree written with the fewest parentheses C-family precedence allows
+}
+
+// opPrec is the C-family (C#, C, Java) precedence of the [flags] operators: shifts, then &, then |.
+var opPrec = map[string]int{"|": 1, "&": 2, "<<": 3, ">>": 3}
+
+func leaf(text string, v int64) expr {
+	return expr{text: text, val: big.NewInt(v), fits: true, min: text}
 }
 
 func combine(op string, a, b expr, lo, hi *big.Int, width uint) expr {
@@ -182,6 +191,15 @@ func combine(op string, a, b expr, lo, hi *big.Int, width uint) expr {
 	} else {
 		e.text += " (" + b.text + ")"
 	}
+	e.op = op
+	amin, bmin := a.min, b.min
+	if a.op != "" && opPrec[a.op] < opPrec[op] {
+		amin = "(" + amin + ")"
+	}
+	if b.op != "" && opPrec[b.op] <= opPrec[op] { // equal precedence groups left to right
+		bmin = "(" + bmin + ")"
+	}
+	e.min = amin + " " + op + " " + bmin
 	v := new(big.Int)
 	switch op {
 	case "|":
@@ -333,7 +351,7 @@ func main() {
 	if run.Thorough() {
 		maxDepth = 3
 	}
-	var nExpr, nFit int64
+	var nExpr, nFit, nMin int64
 	vlib.ParallelFor(len(bases), func(bi int) {
 		base := bases[bi]
 		lo, hi := rangeOf(base)
@@ -341,9 +359,9 @@ func main() {
 		if lo.Sign() < 0 {
 			width++
 		}
-		leaves := []expr{{"1", big.NewInt(1), true, 0}, {"2", big.NewInt(2), true, 0}, {"0x0F", big.NewInt(15), true, 0}, {"A", big.NewInt(4), true, 0}, {"B", big.NewInt(96), true, 0}, {"3", big.NewInt(3), true, 0}}
+		leaves := []expr{leaf("1", 1), leaf("2", 2), leaf("0x0F", 15), leaf("A", 4), leaf("B", 96), leaf("3", 3)}
 		if lo.Sign() < 0 {
-			leaves = append(leaves, expr{"-1", big.NewInt(-1), true, 0}, expr{"N", big.NewInt(-8), true, 0})
+			leaves = append(leaves, leaf("-1", -1), leaf("N", -8))
 		}
 		levels := [][]expr{leaves}
 		all := append([]expr{}, leaves...)
@@ -417,6 +435,30 @@ func main() {
 			if got.Cmp(e.val) != 0 {
 				run.Report(fmt.Sprintf("C15|flags|wrong-value|base=%s|depth=%d", base, e.depth), fmt.Sprintf("[flags] member X = %s evaluates to %s, exact value %s (base %q)", e.text, got, e.val, base), c)
 			}
+			// the same tree with only the parentheses precedence requires must mean the same
+			if e.min != e.text {
+				schemaMin := pre + "\tX = " + e.min + ";\n}\n"
+				fm, _, err := bebop.ReadFile(strings.NewReader(schemaMin))
+				atomic.AddInt64(&states, 1)
+				atomic.AddInt64(&trans, 1)
+				atomic.AddInt64(&nMin, 1)
+				cm := map[string]any{"schema": schemaMin, "class": "flags-min-parens|base=" + base}
+				if err != nil {
+					run.Report("C15|flags-min-parens|rejected|base="+base, fmt.Sprintf("a well-formed [flags] expression was rejected: %v\n%s", err, schemaMin), cm)
+				} else {
+					mo := fm.Enums[0].Options
+					xm := mo[len(mo)-1]
+					var gm *big.Int
+					if fm.Enums[0].Unsigned {
+						gm = new(big.Int).SetUint64(xm.UintValue)
+					} else {
+						gm = big.NewInt(xm.Value)
+					}
+					if gm.Cmp(e.val) != 0 {
+						run.Report(fmt.Sprintf("C15|flags-min-parens|wrong-value|base=%s|depth=%d", base, e.depth), fmt.Sprintf("[flags] member X = %s (that is %s) evaluates to %s, exact value %s (base %q)", e.min, e.text, gm, e.val, base), cm)
+					}
+				}
+			}
 			if _, dup := byVal[e.val.String()]; !dup && e.val.Cmp(big.NewInt(4)) != 0 && e.val.Cmp(big.NewInt(96)) != 0 && e.val.Cmp(big.NewInt(-8)) != 0 {
 				byVal[e.val.String()] = e
 			}
@@ -431,7 +473,11 @@ func main() {
 			for _, e := range byVal {
 				name := fmt.Sprintf("M%d", i)
 				i++
-				fmt.Fprintf(&sb, "\t%s = %s;\n", name, e.text)
+				txt := e.text
+				if i%2 == 1 {
+					txt = e.min // every other member is written with the fewest parentheses
+				}
+				fmt.Fprintf(&sb, "\t%s = %s;\n", name, txt)
 				exps = append(exps, expectation{goName: tn + "_" + name, val: bigVal(e.val), typ: tn, under: goBase(base), what: fmt.Sprintf("[flags] member %s = %s (base %q)", name, e.text, base)})
 				if i >= 400 {
 					break
@@ -520,8 +566,9 @@ func main() {
 	run.Coverage["go_constants_verified"] = consts
 	run.Coverage["flag_expressions_enumerated"] = nExpr
 	run.Coverage["flag_expressions_in_range_checked"] = nFit
+	run.Coverage["flag_expressions_rechecked_with_minimal_parentheses"] = nMin
 	run.Coverage["distinct_nontrivial"] = outcomes.Distinct()
-	run.Coverage["rule"] = "state = one schema generated and type-checked (or one [flags] expression evaluated by ReadFile); consts: 14 types × decimal/hex/negative/min/max/float/inf/nan/string-escape/bool/guid forms × public/private naming; enums: 9 base types × boundary members; [flags]: every fully parenthesised expression tree of depth ≤ 2 (thorough: 3, restricted square) over {1,2,3,0x0F,A,B,-1,N} and | & << >>, asserted when every intermediate value fits the base type; opcodes: 256 four-character strings + 7 integers × struct/message/union × public/private; values read with go/types (types.Const.Val())"
-	run.Assume = []string{"expressions whose exact value (or an intermediate) leaves the base type are C13's business", "unparenthesised mixed-operator expressions are covered by C11's precedence finding", "string escapes other than \\\" and \\\\ are not asserted (bebop and Go may differ legitimately)"}
+	run.Coverage["rule"] = "state = one schema generated and type-checked (or one [flags] expression evaluated by ReadFile); consts: 14 types × decimal/hex/negative/min/max/float/inf/nan/string-escape/bool/guid forms × public/private naming; enums: 9 base types × boundary members; [flags]: every expression tree of depth ≤ 2 (thorough: 3, restricted square) over {1,2,3,0x0F,A,B,-1,N} and | & << >>, written fully parenthesised and again with only the parentheses C-family precedence (shift > & > |, left to right) requires, asserted when every intermediate value fits the base type; opcodes: 256 four-character strings + 7 integers × struct/message/union × public/private; values read with go/types (types.Const.Val())"
+	run.Assume = []string{"expressions whose exact value (or an intermediate) leaves the base type are C13's business", "string escapes other than \\\" and \\\\ are not asserted (bebop and Go may differ legitimately)"}
 	run.Finish()
 }
